@@ -14,7 +14,8 @@
      block label    the i-th label of the enclosing block
      default        the primary value, or the default's when that is null
      transform/validate/refine   the callback applied to the wrapped value
-   A collection whose blocks include one with an unknown body is unknown.
+   A collection whose blocks include one with an unknown body is unknown (and
+   carries the value marks of the first such body).
    Shared with Decode.v are only the cty-level constructors (conv, homogenise,
    list_val, set_val, map_val, nest). *)
 From HclV Require Import Base.Prelude Cty.Values Cty.Convert Cty.Ops Eval.Impl Dec.Spec Dec.Decode.
@@ -29,6 +30,13 @@ Fixpoint first_per_path (items : list (list (list Z) * val)) (seen : list (list 
   | [] => []
   | it :: r => if path_mem (fst it) seen then first_per_path r seen
                else it :: first_per_path r (seen ++ [it])
+  end.
+
+(* the value marks of the first block with an unknown body *)
+Definition first_unknown (bl : list ablock) : option marks :=
+  match find (fun bk => bunknown (bbody bk)) bl with
+  | Some bk => Some (bmarks (bbody bk))
+  | None => None
   end.
 
 Definition attr_val (c : ctx) (a : aexpr) (t : ty) : val :=
@@ -52,8 +60,9 @@ Fixpoint denote (s : spec) (c : ctx) (b : abody) (lbls : list (list Z)) {struct 
       end
   | SBlockList tn n _ _ =>
       let bl := blocks_of tn (bblocks b) in
-      if existsb (fun bk => bunknown (bbody bk)) bl then VUnk (TList (implied_type n)) rf_none
-      else
+      match first_unknown bl with
+      | Some m => with_marks (VUnk (TList (implied_type n)) rf_none) m
+      | None =>
         match map (fun bk => prepare_body_val (denote n c (bbody bk) (blabels bk)) (bbody bk)) bl with
         | [] => VList (implied_type n) []
         | vs => match homogenise vs with
@@ -61,14 +70,18 @@ Fixpoint denote (s : spec) (c : ctx) (b : abody) (lbls : list (list Z)) {struct 
                 | _ => dyn_val
                 end
         end
+      end
   | SBlockTuple tn n _ _ =>
       let bl := blocks_of tn (bblocks b) in
-      if existsb (fun bk => bunknown (bbody bk)) bl then VUnk TDyn rf_none
-      else VTuple (map (fun bk => prepare_body_val (denote n c (bbody bk) (blabels bk)) (bbody bk)) bl)
+      match first_unknown bl with
+      | Some m => with_marks (VUnk TDyn rf_none) m
+      | None => VTuple (map (fun bk => prepare_body_val (denote n c (bbody bk) (blabels bk)) (bbody bk)) bl)
+      end
   | SBlockSet tn n _ _ =>
       let bl := blocks_of tn (bblocks b) in
-      if existsb (fun bk => bunknown (bbody bk)) bl then VUnk (TSet (implied_type n)) rf_none
-      else
+      match first_unknown bl with
+      | Some m => with_marks (VUnk (TSet (implied_type n)) rf_none) m
+      | None =>
         match map (fun bk => prepare_body_val (denote n c (bbody bk) (blabels bk)) (bbody bk)) bl with
         | [] => VSet (implied_type n) []
         | vs => match homogenise vs with
@@ -76,27 +89,31 @@ Fixpoint denote (s : spec) (c : ctx) (b : abody) (lbls : list (list Z)) {struct 
                 | _ => dyn_val
                 end
         end
+      end
   | SBlockMap tn ls n =>
       let bl := blocks_of tn (bblocks b) in
-      if existsb (fun bk => bunknown (bbody bk)) bl
-      then VUnk (iter_ty (length ls) TMap (implied_type n)) rf_none
-      else
+      match first_unknown bl with
+      | Some m => with_marks (VUnk (iter_ty (length ls) TMap (implied_type n)) rf_none) m
+      | None =>
         match first_per_path
                 (map (fun bk => (firstn (length ls) (blabels bk),
                                  prepare_body_val (denote n c (bbody bk) (skipn (length ls) (blabels bk))) (bbody bk))) bl) [] with
         | [] => VMap (iter_ty (pred (length ls)) TMap (implied_type n)) []   (* the empty map of the implied type *)
         | items => some_or_dyn (nest map_val (length ls) items)
         end
+      end
   | SBlockObject tn ls n =>
       let bl := blocks_of tn (bblocks b) in
-      if existsb (fun bk => bunknown (bbody bk)) bl then VUnk TDyn rf_none
-      else
+      match first_unknown bl with
+      | Some m => with_marks (VUnk TDyn rf_none) m
+      | None =>
         match first_per_path
                 (map (fun bk => (firstn (length ls) (blabels bk),
                                  prepare_body_val (denote n c (bbody bk) (skipn (length ls) (blabels bk))) (bbody bk))) bl) [] with
         | [] => VObj []
         | items => some_or_dyn (nest obj_val (length ls) items)
         end
+      end
   | SBlockAttrs tn ety _ =>
       match blocks_of tn (bblocks b) with
       | [] => VNull (TMap ety)
